@@ -56,7 +56,10 @@ pub struct VxTracker { pub trusted_oracle_pubkeys: Vec<PublicKey>, pub rest: VxT
 #[verifier::external_body] pub struct VxListenerEntries { _p: u8 }
 #[verifier::external_body] pub struct VxListeners { _p: u8 }
 #[verifier::external_body] pub struct VxTrackerState { _p: u8 }
-#[verifier::external_body] pub struct VxTrackerSlot { _p: u8 }
+// tracker ListenSlot: the persisted txid watches, outpoint watches and outpoints already seen spent
+pub struct VxTrackerSlot { pub txid_watches: VxTxidSet, pub watches: VxOutPointSet, pub seen: VxOutPointSet }
+#[verifier::external_body] pub struct VxTxidSet { _p: u8 }
+#[verifier::external_body] pub struct VxOutPointSet { _p: u8 }
 #[verifier::external_body] pub struct VxProvider { _p: u8 }
 #[verifier::external_body] pub struct VxMonitor { _p: u8 }
 #[verifier::external_body] pub struct VxTrackerGuard { _p: u8 }
@@ -176,6 +179,9 @@ impl VxTrackerGuard {
     #[verifier::external_body] pub fn restore_listener(&mut self, o: OutPoint, m: VxMonitor, s: VxTrackerSlot)
         ensures listener_restored(o, monitor_base(m), s)
     { unimplemented!() }
+    // the registration path of NEW listeners (starts with empty `watches` / `seen`); restoring must not go through it
+    #[verifier::external_body] pub fn add_listener(&mut self, m: VxMonitor, txid_watches: VxTxidSet) { unimplemented!() }
+    #[verifier::external_body] pub fn add_listener_watches(&mut self, k: &OutPoint, watches: VxOutPointSet) { unimplemented!() }
     // tracker.add_listener(monitor, OrderedSet::from_iter(vec![txid]))
     #[verifier::external_body] pub fn vx_add_listener(&mut self, m: VxMonitor, txid: Txid) { unimplemented!() }
 }
